@@ -267,7 +267,8 @@ pub fn c17_parts(quick: bool) -> (Vec<EwSpec>, Vec<Scenario>) {
             scs.push(sc("C17.overlap", &cfg, script.clone(), env, d, EO_C17 | EO_C08));
             // connections ending in between (disconnect by client, by server, drop, time-out of a vanished client), then a late-comer must be admitted
             for (ename, endings) in [("client-disconnect", vec![after_c(0, 3, Act::CDisconnectNow(0))]), ("server-disconnect", vec![after_s(0, 3, Act::SDisconnectNow(0))]),
-                                     ("drop", vec![after_s(0, 3, Act::SDrop(0)), after_s(0, 4, Act::Forget(0))]), ("vanish", vec![after_c(0, 3, Act::Forget(0))])] {
+                                     ("drop", vec![after_s(0, 3, Act::SDrop(0)), after_s(0, 4, Act::Forget(0))]), ("vanish", vec![after_c(0, 3, Act::Forget(0))]),
+                                     ("crossing-disconnects", vec![after_s(0, 3, Act::SDisconnectNow(0)), after_s(0, 3, Act::CDisconnectNow(0))]), ("crossing-flushing-disconnects", vec![after_s(0, 3, Act::SDisconnect(0)), after_s(0, 4, Act::CDisconnect(0))])] {
                 if quick && nc != 2 { continue; }
                 let mut s2 = script.clone(); s2.extend(endings);
                 // the late-comer arrives after the closed time-out (20 s) and every retry budget has passed: 70 s
@@ -326,7 +327,7 @@ pub fn c17(quick: bool) -> PropRun {
     let scs = assemble(own, custom, quick, "C17", EO_C17);
     PropRun { level: "model_checking", scenarios: scs, units: vec![], replay_case: None, summary: ew_summary(
         "limit ledger on the server's own event stream and tracked-connection count at every round of every explored execution; all interleavings of the handshake datagrams of 2-3 clients are enumerated completely (free choices), 4 clients deviation-bounded",
-        json!({"limits(max_active,max_total)": "(1,1) (1,2) (1,3) (2,2) (2,3) (2,4) (3,3)", "clients": [2, 3, 4], "handshake_fates": "deliver / hold 2 rounds / drop on SYN, SYN-ACK, ACK", "endings": "client disconnect, server disconnect, Server::drop, vanished client (time-out)"})) }
+        json!({"limits(max_active,max_total)": "(1,1) (1,2) (1,3) (2,2) (2,3) (2,4) (3,3)", "clients": [2, 3, 4], "handshake_fates": "deliver / hold 2 rounds / drop on SYN, SYN-ACK, ACK", "endings": "client disconnect, server disconnect, both at once (crossing), Server::drop, vanished client (time-out), abandoned handshake, flushing disconnect towards a vanished peer"})) }
 }
 
 // ------------------------------------------------------------------------------------------------
@@ -515,7 +516,7 @@ pub fn c09_parts(quick: bool) -> (Vec<EwSpec>, Vec<Scenario>) {
                 script.push(match (who, now) { (0, false) => after_c(0, 4, Act::CDisconnect(0)), (0, true) => after_c(0, 4, Act::CDisconnectNow(0)), (_, false) => after_s(0, 4, Act::SDisconnect(0)), (_, true) => after_s(0, 4, Act::SDisconnectNow(0)) });
                 let mut env = EwEnv::basic(if quick { 6 } else { 9 }, 120);
                 env.dev_start = 4; env.fates = DF_BASIC; env.deltas = &[100, 0, 2000]; env.fair_delta = 500;
-                if quick { env.deltas = &[100, 2000]; }
+                if quick { env.deltas = &[100, 0, 2000]; }
                 scs.push(sc(&format!("C09.{}.{}{}", lname, if who == 0 { "client" } else { "server" }, if now { "-now" } else { "" }), &cfg, script.clone(), env, d, EO_C09 | EO_C08));
                 // blackout from any round after the call (one or both directions, permanent)
                 let mut envb = EwEnv::basic(if quick { 6 } else { 10 }, 140);
@@ -523,6 +524,29 @@ pub fn c09_parts(quick: bool) -> (Vec<EwSpec>, Vec<Scenario>) {
                 scs.push(sc(&format!("C09.blackout.{}.{}{}", lname, if who == 0 { "client" } else { "server" }, if now { "-now" } else { "" }), &cfg, script, envb, 1, EO_C09 | EO_C08));
             }
         }
+    }
+    // data submitted over several steps before disconnect(): each packet travels in its own frame, so an early frame can be lost while a
+    // later one and its acknowledgement get through before the first resend
+    for who in 0..2 {
+        let cfg = EwCfg::new(1);
+        let mut script = vec![at(0, Act::Connect(0)), after_c(0, 1, Act::CSend(0, 5, Reliable, 10)), after_s(0, 1, Act::SSend(0, 5, Reliable, 11))];
+        let items: [(usize, u8, SendMode, usize); 5] = [(4, 0, Reliable, 100), (5, 1, Reliable, 120), (5, 2, Unreliable, 30), (6, 3, Reliable, 140), (6, 0, Persistent, 60)];
+        for (off, chn, m, sz) in items.iter() { script.push(if who == 0 { after_c(0, *off, Act::CSend(0, *chn, *m, *sz)) } else { after_s(0, *off, Act::SSend(0, *chn, *m, *sz)) }); }
+        script.push(if who == 0 { after_c(0, 6, Act::CDisconnect(0)) } else { after_s(0, 6, Act::SDisconnect(0)) });
+        let mut env = EwEnv::basic(if quick { 7 } else { 10 }, 120);
+        env.dev_start = 4; env.fates = DF_BASIC; env.deltas = &[100, 0, 2000]; env.fair_delta = 500;
+        scs.push(sc(&format!("C09.staggered.{}", if who == 0 { "client" } else { "server" }), &cfg, script, env, d, EO_C09 | EO_C08));
+    }
+    // a warm connection (20 kB transferred, constant 100 ms cadence): the last packet's three frames leave in one flush
+    for who in 0..2 {
+        let cfg = EwCfg::new(1);
+        let mut script = vec![at(0, Act::Connect(0))];
+        script.push(if who == 0 { after_c(0, 1, Act::CSend(0, 0, Reliable, 20_000)) } else { after_s(0, 1, Act::SSend(0, 0, Reliable, 20_000)) });
+        script.push(if who == 0 { after_c(0, 16, Act::CSend(0, 1, Reliable, 4000)) } else { after_s(0, 16, Act::SSend(0, 1, Reliable, 4000)) });
+        script.push(if who == 0 { after_c(0, 16, Act::CDisconnect(0)) } else { after_s(0, 16, Act::SDisconnect(0)) });
+        let mut env = EwEnv::basic(if quick { 6 } else { 9 }, 140);
+        env.dev_start = 16; env.fates = DF_BASIC; env.deltas = &[100, 0, 2000]; env.fair_delta = 100;
+        scs.push(sc(&format!("C09.warm.{}", if who == 0 { "client" } else { "server" }), &cfg, script, env, d, EO_C09 | EO_C08));
     }
     // both applications close at (nearly) the same time: the two disconnect requests cross, in every combination of flushing / immediate
     for (sname, c_at, s_at) in [("same-round", 4usize, 4usize), ("server-first", 5, 4), ("client-first", 4, 5), ("server-two-ahead", 6, 4)] {
